@@ -352,6 +352,36 @@ pub fn extra_reader_scenarios(seed: u64) -> Vec<c09::Scn> {
         aes: false,
         damaged: false,
     });
+    // a Stored nested archive WITHOUT entries: its data begins with an end-of-central-directory signature (plain or ZIP64
+    // form). A reader left inside it after a failed release must not take that for the regular end of the outer entries.
+    for (lab, content) in [
+        ("nested-empty-zip-in-the-middle", build(&Spec { comment: b"empty".to_vec(), ..Default::default() }).0),
+        ("nested-zip64-end-bytes-in-the-middle", {
+            let mut c = b"PK\x06\x06".to_vec();
+            c.extend_from_slice(&[44, 0, 0, 0, 0, 0, 0, 0, 45, 0, 45, 0]);
+            c.extend_from_slice(&[0u8; 36]);
+            c.extend_from_slice(&build(&Spec::default()).0);
+            c
+        }),
+    ] {
+        v.push(c09::Scn {
+            label: lab.into(),
+            bytes: build(&Spec {
+                entries: vec![
+                    ESpec { name: b"first".to_vec(), method: 8, content: a.clone(), ..Default::default() },
+                    ESpec { name: b"bundle/empty.zip".to_vec(), method: 0, content, ..Default::default() },
+                    ESpec { name: b"after".to_vec(), method: 0, content: b.clone(), ..Default::default() },
+                    ESpec { name: b"last".to_vec(), method: 8, content: a.clone(), ..Default::default() },
+                ],
+                ..Default::default()
+            })
+            .0,
+            pw: None,
+            stream: true,
+            aes: false,
+            damaged: false,
+        });
+    }
     v.push(c09::Scn {
         label: "extras-and-comments-on-every-entry".into(),
         bytes: build(&Spec {
@@ -447,7 +477,17 @@ fn check_reader(s: &c09::Scn, route: u8, base: &RObs, devs: &[(u64, Dev)], st: &
                 let spans = c09::RELEASE_SPANS.with(|s| s.borrow().clone());
                 let in_release = route >= 3 && devs.iter().all(|(k, _)| spans.iter().any(|(a, b)| k >= a && k < b));
                 st.viol(
-                    format!("reader/silent-wrong-result/{rname}{}", if in_release { "/fault-while-an-entry-is-released" } else { "" }),
+                    if in_release {
+                        // the site is part of the signature: scenario and the I/O call(s) hit, so that the committed known finding
+                        // names exactly the histories that fail and any other one is reported
+                        format!(
+                            "reader/silent-wrong-result/{rname}/fault-while-an-entry-is-released/{}@{}",
+                            s.label,
+                            devs.iter().map(|(k, _)| k.to_string()).collect::<Vec<_>>().join("+")
+                        )
+                    } else {
+                        format!("reader/silent-wrong-result/{rname}")
+                    },
                     format!("{} via {rname}: {:?} injected, no call reported an error, but the observed entries differ from the failure-free run", s.label, devs),
                     case(),
                     order,
